@@ -1037,11 +1037,22 @@ func NoTerminalTypeRejected(p *load.Prog, r *oblig.Report, rule string, funcs []
 	n := 0
 	for _, fn := range funcs {
 		has := false
+		paramEmpty := map[string]bool{} // a helper that is handed the edge list of the node
 		for _, b := range fn.Blocks {
 			for _, in := range b.Instrs {
 				if bo, ok := in.(*ssa.BinOp); ok && (bo.Op == token.EQL || bo.Op == token.GTR || bo.Op == token.NEQ) {
 					if c, ok := bo.X.(*ssa.Call); ok {
-						if bi, isB := c.Common().Value.(*ssa.Builtin); isB && bi.Name() == "len" && strings.Contains(AccessPath(c.Common().Args[0]), ".edges[") {
+						isEdgeListParam := false
+						if len(c.Common().Args) == 0 {
+							continue
+						}
+						if prm, isP := c.Common().Args[0].(*ssa.Parameter); isP {
+							if sl, isS := prm.Type().Underlying().(*types.Slice); isS && strings.HasSuffix(sl.Elem().String(), "WeightedAuthorizationModelEdge") {
+								isEdgeListParam = true
+								paramEmpty["len("+prm.Name()+") == 0"] = true
+							}
+						}
+						if bi, isB := c.Common().Value.(*ssa.Builtin); isB && bi.Name() == "len" && (isEdgeListParam || strings.Contains(AccessPath(c.Common().Args[0]), ".edges[")) {
 							has = true
 							// "no outgoing edge" is a comparison with 0
 							if k, isC := bo.Y.(*ssa.Const); isC && k.Value != nil && bo.Op == token.EQL && k.Int64() != 0 && returnsErr(fn) {
@@ -1070,7 +1081,7 @@ func NoTerminalTypeRejected(p *load.Prog, r *oblig.Report, rule string, funcs []
 			empty, isTerminal := false, false
 			nonTerminalFacts := 0
 			for _, f := range pt.Facts(-1) {
-				if emptyRe.MatchString(f.Atom) && f.Value {
+				if (emptyRe.MatchString(f.Atom) || paramEmpty[f.Atom]) && f.Value {
 					empty = true
 				}
 				if m := kindRe.FindStringSubmatch(f.Atom); m != nil {
@@ -1648,11 +1659,31 @@ func PlaceholderNeedsTuple(p *load.Prog, r *oblig.Report, rule string, funcs []*
 			}
 		}
 		if !has {
+			// a caller of a small helper that gives the placeholder is where the evidence is
+			for _, b := range fn.Blocks {
+				for _, in := range b.Instrs {
+					if call, ok := in.(*ssa.Call); ok {
+						if cal := call.Common().StaticCallee(); cal != nil && placesPlaceholder(cal) && isSmallHelper(cal, fn) {
+							has = true
+						}
+					}
+				}
+			}
+		} else if isSmallHelper(fn, fn) && len(callSitesOf(funcs, fn)) > 0 {
+			continue // judged where it is called
+		}
+		if !has {
 			continue
 		}
 		construct := "placeholder-needs-tuple:" + load.FuncName(fn)
 		ex := &pathx.Explorer{Root: fn, MaxPaths: 30000, Follow: func(c *ssa.Function) bool {
-			return c.Pkg == fn.Pkg && len(c.Blocks) > 0 && len(c.Blocks) <= 4 && !returnsErr(c) && (c.Parent() != nil || !token.IsExported(c.Name()))
+			// a classifier (it is handed the ancestor path) stays a call: its verdict is the evidence looked for
+			for _, q := range c.Params {
+				if sl, ok := q.Type().Underlying().(*types.Slice); ok && strings.HasSuffix(sl.Elem().String(), "WeightedAuthorizationModelEdge") {
+					return false
+				}
+			}
+			return isSmallHelper(c, fn)
 		}}
 		paths := ex.Explore()
 		if ex.Overflow || len(paths) == 0 {
@@ -1892,4 +1923,19 @@ func loopHeaderOfBlockE5(b *ssa.BasicBlock) *ssa.BasicBlock {
 		}
 	}
 	return nil
+}
+
+func isSmallHelper(c, from *ssa.Function) bool {
+	return c.Pkg == from.Pkg && len(c.Blocks) > 0 && len(c.Blocks) <= 4 && !returnsErr(c) && (c.Parent() != nil || !token.IsExported(c.Name()))
+}
+
+func placesPlaceholder(f *ssa.Function) bool {
+	for _, b := range f.Blocks {
+		for _, in := range b.Instrs {
+			if mu, ok := in.(*ssa.MapUpdate); ok && isPlaceholderKey(mu.Key) {
+				return true
+			}
+		}
+	}
+	return false
 }
